@@ -925,6 +925,8 @@ def scope_program(T, d, context):
     t = T["types"].get(d)
     if t is None or t[0] == "TDefer":
         return None
+    if context != "module" and any(part in ("cdef", "DEF", "IF") for part in d.split(".")):
+        return None          # not spellable as cython.<name> (reserved word)
     arg = {"TBool": "(True)", "TStr": "('x')", "TEncoding": "('utf8')", "TInt": "(8)", "TNoValue": "", "TList": "('//x')"}.get(t[0])
     if t[0] == "TEnum":
         arg = "(%r)" % t[1][0]
